@@ -320,7 +320,13 @@ func genC18(tier string, run int, r *simcore.Rand) *harness.Plan {
 		}
 	}
 	p := &harness.Plan{Mode: "c18", Config: harness.MustJSON(cfg), Bubble: true}
-	p.LockYield = []int{0, 0, 20, 200}[r.Intn(4)]
+	// Lock sites are not scheduling points here (LockYield 0): the server's
+	// own goroutines (sync-to-index loop, hub notifications, index) reach
+	// lock sites in an order that depends on Go map iteration inside perkeep
+	// and, with file-backed stores, on real time spent in system calls; who
+	// draws which lock-site decision would then differ between executions of
+	// the same plan. Scheduling points are the transport's (handler start,
+	// body reads, response delivery) and task starts, all uniquely labelled.
 	p.Sticky = []int{0, 500, 900}[r.Intn(3)]
 	for _, op := range ops {
 		p.Ops = append(p.Ops, harness.MustJSON(op))
